@@ -78,26 +78,26 @@ func (m *MutAnalysis) exempt(t types.Type) bool {
 // external mutators: callee full name -> indices of arguments written
 // (for methods index 0 is the receiver, so the first explicit argument is 1).
 var extMutators = map[string][]int{
-	"(crypto/cipher.Stream).XORKeyStream":    {1},
-	"(*crypto/rc4.Cipher).XORKeyStream":      {1},
-	"(crypto/cipher.BlockMode).CryptBlocks":  {1},
-	"(crypto/cipher.Block).Encrypt":          {1},
-	"(crypto/cipher.Block).Decrypt":          {1},
-	"(io.Reader).Read":                       {1},
-	"(io.ReaderAt).ReadAt":                   {1},
-	"io.ReadFull":                            {1},
-	"io.ReadAtLeast":                         {1},
-	"crypto/rand.Read":                       {0},
-	"sort.Slice":                             {0},
-	"sort.SliceStable":                       {0},
-	"sort.Sort":                              {0},
-	"sort.Stable":                            {0},
-	"sort.Strings":                           {0},
-	"sort.Ints":                              {0},
-	"slices.Sort":                            {0},
-	"slices.SortFunc":                        {0},
-	"slices.SortStableFunc":                  {0},
-	"slices.Reverse":                         {0},
+	"(crypto/cipher.Stream).XORKeyStream":      {1},
+	"(*crypto/rc4.Cipher).XORKeyStream":        {1},
+	"(crypto/cipher.BlockMode).CryptBlocks":    {1},
+	"(crypto/cipher.Block).Encrypt":            {1},
+	"(crypto/cipher.Block).Decrypt":            {1},
+	"(io.Reader).Read":                         {1},
+	"(io.ReaderAt).ReadAt":                     {1},
+	"io.ReadFull":                              {1},
+	"io.ReadAtLeast":                           {1},
+	"crypto/rand.Read":                         {0},
+	"sort.Slice":                               {0},
+	"sort.SliceStable":                         {0},
+	"sort.Sort":                                {0},
+	"sort.Stable":                              {0},
+	"sort.Strings":                             {0},
+	"sort.Ints":                                {0},
+	"slices.Sort":                              {0},
+	"slices.SortFunc":                          {0},
+	"slices.SortStableFunc":                    {0},
+	"slices.Reverse":                           {0},
 	"(encoding/binary.littleEndian).PutUint16": {1},
 	"(encoding/binary.littleEndian).PutUint32": {1},
 	"(encoding/binary.littleEndian).PutUint64": {1},
